@@ -139,6 +139,9 @@ func closeMachines(ms []*Machine) {
 		if m != nil && m.solver != nil {
 			m.solver.Close()
 		}
+		if m != nil && m.solverCF != nil {
+			m.solverCF.Close()
+		}
 	}
 }
 
@@ -205,6 +208,23 @@ func printReport(rep *HarnessReport, ms []*Machine, show int) {
 	for _, w := range st.why {
 		fmt.Printf("  INCONCLUSIVE: %s\n", w)
 	}
+	if debugUnsat {
+		type kv struct {
+			k string
+			d time.Duration
+		}
+		var l []kv
+		for k, d := range debugTime {
+			l = append(l, kv{k, d})
+		}
+		sort.Slice(l, func(i, j int) bool { return l[i].d > l[j].d })
+		for i, e := range l {
+			if i > 25 {
+				break
+			}
+			fmt.Printf("  QTIME %-60s n=%-7d total=%.1fs avg=%.1fms\n", e.k, debugCount[e.k], e.d.Seconds(), float64(e.d.Milliseconds())/float64(debugCount[e.k]))
+		}
+	}
 }
 
 type aggStats struct {
@@ -226,12 +246,14 @@ func aggregate(ms []*Machine) aggStats {
 	var a aggStats
 	a.intrinsics = map[string]int{}
 	for _, m := range ms {
-		a.queries += m.solver.queries
-		a.sat += m.solver.sat
-		a.unsat += m.solver.unsat
-		a.unknown += m.solver.unknown
-		a.errors += m.solver.errors
-		a.timeNs += m.solver.timeNs
+		for _, sv := range []*Solver{m.solver, m.solverCF} {
+			a.queries += sv.queries
+			a.sat += sv.sat
+			a.unsat += sv.unsat
+			a.unknown += sv.unknown
+			a.errors += sv.errors
+			a.timeNs += sv.timeNs
+		}
 		a.branches += m.stats.branches
 		a.newDecisions += m.stats.newDecisions
 		a.forks += m.stats.forks
